@@ -107,14 +107,31 @@ func (w *recWriter) finish() (status int, header, trailer http.Header, body []by
 		if strings.HasPrefix(k, http.TrailerPrefix) {
 			continue
 		}
-		header[k] = v
+		header[k] = trimFieldValues(v)
 	}
 	for k, v := range w.header {
 		if strings.HasPrefix(k, http.TrailerPrefix) {
-			trailer[strings.TrimPrefix(k, http.TrailerPrefix)] = v
+			trailer[strings.TrimPrefix(k, http.TrailerPrefix)] = trimFieldValues(v)
 		}
 	}
 	return w.status, header, trailer, w.body
+}
+
+// trimFieldValues: HTTP strips optional whitespace (SP / HTAB) around field
+// values - net/http does so when it writes a header - so the transport model
+// does too.
+func trimFieldValues(vs []string) []string {
+	out := make([]string, len(vs))
+	for i, v := range vs {
+		for len(v) > 0 && (v[0] == ' ' || v[0] == '\t') {
+			v = v[1:]
+		}
+		for len(v) > 0 && (v[len(v)-1] == ' ' || v[len(v)-1] == '\t') {
+			v = v[:len(v)-1]
+		}
+		out[i] = v
+	}
+	return out
 }
 
 // stackTransport is the HTTPClient handed to the real Client: it serves the
